@@ -84,6 +84,10 @@ Layouts == [
                   Pool("p3", <<"v1">>, FALSE, TRUE, NULL) >>,
   PinNoAuto |-> << Pool("p1", <<"b0">>, FALSE, TRUE, NULL),
                    Pool("p2", <<"b3">>, FALSE, FALSE, Pin(1, {"ns1"}, {})) >>,
+  PinMoveA |-> << Pool("p1", <<"b01">>, FALSE, TRUE, Pin(1, {"ns1"}, {})),
+                  Pool("p2", <<"b3">>, FALSE, TRUE, NULL) >>,
+  PinMoveB |-> << Pool("p1", <<"b01">>, FALSE, TRUE, Pin(1, {"ns2"}, {})),
+                  Pool("p2", <<"b3">>, FALSE, TRUE, NULL) >>,
   Big      |-> << Pool("p1", <<"b25">>, TRUE, TRUE, NULL) >>,
   S32      |-> << Pool("p1", <<"b1">>, TRUE, TRUE, NULL),
                   Pool("p2", <<"b3">>, FALSE, TRUE, NULL) >>,
